@@ -148,8 +148,9 @@ class ConcreteCtx(BaseCtx):
     """Replays a harness on concrete input values with no proxy in sight."""
     symbolic = False
 
-    def __init__(self, values):
+    def __init__(self, values, hints=()):
         self.values = values
+        self.hints = list(hints)      # labels being replayed (a harness may need the call-site part of a label)
         self.records = []
         self.observed = []
         self.notes = {}
@@ -210,10 +211,10 @@ def concretize_plain(value):
     return repr(value)
 
 
-def run_concrete(fn, structure, values):
+def run_concrete(fn, structure, values, hints=()):
     """-> dict(valid, failed labels, observed, error)"""
     set_engine(None)
-    ctx = ConcreteCtx(values)
+    ctx = ConcreteCtx(values, hints)
     err = None
     try:
         fn(ctx, structure)
